@@ -269,10 +269,13 @@ class Ctx:
         self.known_seen: dict[str, str] = {}
         self.t0 = time.time()
         self.escalated = False
+        self.boost = 1          # > 1 when the anchored sources differ from the fingerprint the checks were tuned on
 
     # budget helpers -------------------------------------------------------------------------------------------
     def n(self, quick: int, thorough: int) -> int:
-        return thorough if (self.tier == 'thorough' or self.escalated) else quick
+        if self.tier == 'thorough' or self.escalated:
+            return thorough
+        return min(thorough, quick * self.boost)
 
     def count(self, table: str, key: str, k: int = 1) -> None:
         self.dist.setdefault(table, {})
@@ -287,6 +290,35 @@ class Ctx:
 
     def fail(self, kind: str, stream: str, case: dict, detail: str, signature: str = '') -> None:
         self.failures.append(Failure(kind, stream, case, detail, signature))
+
+
+def fingerprint_now() -> dict:
+    """sha256 of every source file the properties are anchored in (library modules and laser headers)."""
+    out = {}
+    root = REPO / 'src' / 'femto'
+    for f in sorted(list(root.glob('*.py')) + list((root / 'utils').glob('header_*.txt'))):
+        out[str(f.relative_to(REPO))] = hashlib.sha256(f.read_bytes()).hexdigest()
+    return out
+
+
+def changed_sources(pid: str) -> list[str]:
+    """Anchored files of the property whose content differs from fingerprints.json (committed; written by
+    tools/mkfingerprints.py on the tree the checks were developed against).  A difference is not a verdict: it only makes
+    the quick tier look harder (DESIGN.md 3.4)."""
+    fp = VERIF / 'fingerprints.json'
+    if not fp.exists():
+        return []
+    ref = json.loads(fp.read_text())
+    now = fingerprint_now()
+    anchors = None
+    for line in (VERIF / 'properties.jsonl').read_text().splitlines():
+        if line.strip():
+            d = json.loads(line)
+            if d['id'] == pid:
+                anchors = set(d.get('anchors', {}).get('files', []))
+    # the compiler, the path base class and the helpers sit under every property
+    anchors = (anchors or set()) | {'src/femto/pgmcompiler.py', 'src/femto/laserpath.py', 'src/femto/helpers.py'}
+    return sorted(f for f in set(ref) | set(now) if f in anchors and ref.get(f) != now.get(f))
 
 
 def load_known() -> dict:
